@@ -13,7 +13,7 @@ Layers:
     Counted separately in the evidence (`pos-in-user-snippet`).
   * CORRESPONDENCE: outcome class of the extracted Coq model `expand_markup_str` (Ok | ParseErr kind pos |
     Internal | OutOfFuel) == outcome class of the implementation (incl. error kind and position) on every case
-    the model covers (BEM and markup.href configurations included; not lorem), and the output TEXT is equal as well.
+    the model covers (BEM, markup.href and lorem configurations included), and the output TEXT is equal as well.
   * markup.href (coq/model/MarkupHref.v, insert_href in coq/model/MarkupConvert.v): harness/href_util.py compares the
     matchers with the compiled regex objects, insert_href with the real one, and the FULL expand() output / callback
     events on URL / e-mail like wrap texts.
@@ -141,13 +141,18 @@ def outcome(abbr, cfg):
     def on_alarm(sig, frm):
         raise Hang()
     # CPU time of this process (ITIMER_PROF), not wall time: independent of the load of the machine
+    import lorem_oracle as lo
     old = signal.signal(signal.SIGPROF, on_alarm)
     signal.setitimer(signal.ITIMER_PROF, HANG_S)
     try:
-        out = expand(abbr, copy.deepcopy(cfg))
+        # lorem text under the deterministic oracle of this case (harness/lorem_oracle.py): the model gets the same draws
+        with lo.patched(lo.Oracle(lo.seed_of(abbr, cfg))):
+            out = expand(abbr, copy.deepcopy(cfg))
         r = ('ok', out) if isinstance(out, str) else ('notstr', type(out).__name__)
     except Hang:
         r = ('hang',)
+    except lo.OracleLimit:
+        r = ('oracle-limit',)               # more lorem words than the draw limit (300000 draws): not a question of safety
     except Exception as e:  # noqa
         r = classify(e)
     finally:
@@ -257,7 +262,7 @@ def user_snippet_lengths(cfg):
 
 def oracle(abbr, cfg, r):
     """The C07 statement on one implementation outcome: None or a description of the failure."""
-    if r[0] == 'ok':
+    if r[0] in ('ok', 'oracle-limit'):
         return None
     if r[0] == 'notstr':
         return 'expand returned a %s, not a string' % r[1]
@@ -593,8 +598,8 @@ def run_markup(ctx, model_ok=True):
             '(delete/insert/swap/duplicate) of valid abbreviations under random option sets (syntax, text str/list, comments, JSX, '
             'BEM, context, maxRepeat/max_repeat, user snippets incl. malformed ones, variables, output options). Observable: outcome '
             'class ok | scanner-error pos | token-error pos | internal type | recursion | hang. Non-trivial = raises a parse error '
-            'or expands >= 2 characters of input to non-empty text; distinct by (configuration, input). lorem cases are '
-            'checked by the implementation oracle only (lorem text is not in the Coq model). BEM (coq/model/MarkupBem.v): '
+            'or expands >= 2 characters of input to non-empty text; distinct by (configuration, input). lorem cases run under the '
+            'deterministic randint oracle of harness/lorem_oracle.py and are compared like all others (the model gets the same draws). BEM (coq/model/MarkupBem.v): '
             'additionally the FULL output string of model and implementation is compared on every class string up to length 4 '
             '(thorough: 5) over `a b - _ 1 space` on the last of 1-3 nested elements, with/without a context class, default and '
             'custom separators, exhaustive pairs/triples of short class strings on chains and siblings (module-lifetime cache of '
@@ -641,17 +646,27 @@ def run_markup(ctx, model_ok=True):
         'full': ['C07_tokenize_safe', 'C07_parser_safe', 'C07_tokenize_parse_safe', 'C07_convert_safe', 'C07_resolve_safe',
                  'C07_builtin_tables_wf (complete sweep)', 'C07_user_table_wf', 'C07_tokenizer_output_wellformed',
                  'C07_parser_output_convertible', 'C07_bem_safe (BEM addon never raises: all nodes, paths, cache states, separators, contexts)',
-                 'C07_transform_safe (transform pass incl. BEM is total)',
-                 'C07_expand_safe (markup model, all inputs, all configurations with wf snippet table, bem.enabled included)',
+                 'C07_transform_forest_safe (transform pass incl. BEM is total)',
+                 'C07_lorem_pass_safe (lorem text generation, every forest, every stream of draws: paragraphs written or stream exhausted, never Internal)',
+                 'C07_transform_safe / C07_transform_safe_lorem_free (walk = lorem draws + transform: OutOfFuel exactly for an exhausted stream)',
+                 'C07_expand_safe (markup model, all inputs incl. lorem abbreviations, every stream of draws, all configurations with wf snippet '
+                 'table, bem.enabled included; OutOfFuel only when the lorem oracle stream ran out)',
                  'C07_expand_safe_any_table (malformed user snippets: position inside the snippet text)',
+                 'props/Lorem.v (lorem model extension): Lorem_randint, Lorem_sample_safe, Lorem_insert_commas_safe, Lorem_vocabularies_ok '
+                 '(complete sweep), Lorem_generator_safe (never Internal / never loop fuel, every header and stream), Lorem_paragraph_words '
+                 '(exactly word_count vocabulary entries in sentence form, common opening), Lorem_header_range, Lorem_word_count_in_range, '
+                 'Lorem_paragraph_exact_words (the text is the join of exactly word_count tokens), Lorem_words_are_blank_free_runs, '
+                 'Lorem_generator_reads_stream / Lorem_exhausted_on_every_prefix / Lorem_pass_reads_stream (the oracle is read left to right: the '
+                 'result depends only on the draws consumed; OutOfFuel = more draws are needed), '
+                 'Lorem_pass (only values change, only under a lorem header), Lorem_free_forest (porting lemma), Lorem_text_node, '
+                 'Lorem_top_level_node (both passes composed, BEM on or off), Lorem_test_agree',
                  'props/Href.v (markup.href model extension): Href_url_matcher / Href_email_matcher / Href_proto_matcher (matcher = '
                  'denotation of its regex, all strings), Href_value, Href_value_nonempty, Href_attrs_spec, Href_never_overwrites, '
                  'Href_written_only_when_empty, Href_text_as_by_insert_text, Href_off_is_href_free_converter (porting lemma), '
                  'Href_converter_cases, Href_same_outcome (markup.href adds no failure), Href_deepest_last_element'],
         'partial': [],
         'by_construction': ['formatters return plain values (no res, no fuel): proofs/SafeFormat.v'],
-        'not_in_model(implementation oracle only)': ['lorem text generation',
-                                                     'user callbacks other than the identity', 'CPython recursion limit (known finding)',
+        'not_in_model(implementation oracle only)': ['user callbacks other than the identity', 'CPython recursion limit (known finding)',
                                                      'digit runs beyond CPython int conversion limit (model numbers are unbounded)'],
     }
     # ---- correspondence with the extracted model
@@ -666,16 +681,18 @@ def run_markup(ctx, model_ok=True):
             enc[ci] = None
         except Exception as e:  # a configuration the real Config rejects: implementation-only
             enc[ci] = None
-    lorem_cfg = {ci: mentions_lorem('', cfg) for ci, cfg in enumerate(cs.cfgs)}
+    import lorem_oracle as lo
     wires, idx = [], []
     for k, (abbr, ci, tag) in enumerate(cs.items):
         if enc[ci] is None:
             ctx.cover('markup:not-modelled(option type)')
             continue
-        if lorem_cfg[ci] or 'lorem' in abbr.lower():
-            ctx.cover('markup:not-compared(lorem)')
-            continue
-        wires.append([2] + enc[ci] + enc_str(abbr))
+        if lo.lorem_like(abbr, cs.cfgs[ci]):
+            # a lorem node is possible: the model gets the raw draws of the oracle the implementation ran under
+            ctx.cover('markup:compared-with-lorem-draws')
+            wires.append([2] + enc_config(cs.cfgs[ci], lo.model_draws(abbr, cs.cfgs[ci])) + enc_str(abbr))
+        else:
+            wires.append([2] + enc[ci] + enc_str(abbr))
         idx.append(k)
     outs = model.run(wires)
     dis = 0
@@ -684,6 +701,10 @@ def run_markup(ctx, model_ok=True):
         abbr, ci, tag = cs.items[k]
         mo = decode_expand(w)
         im = impl[k]
+        if im[0] == 'oracle-limit' or (mo[0] == 'outoffuel' and lo.lorem_like(abbr, cs.cfgs[ci]) and im[0] == 'ok'
+                                        and len(im[1]) > 8 * lo.MODEL_DRAWS // 3):
+            ctx.cover('markup:not-compared(lorem text longer than the draws handed to the model)')
+            continue
         if klass(mo) != klass(im):
             dis += 1
             if dis <= 5:
@@ -697,10 +718,6 @@ def run_markup(ctx, model_ok=True):
             if case_mapping_outside_model(abbr, cs.cfgs[ci]):
                 # DESIGN section 2: lower/upper are exact on ASCII and the identity elsewhere in the model
                 ctx.cover('markup:not-text-compared(tagCase/attributeCase with cased non-ASCII letters)')
-                continue
-            if 'Lorem' in mo[1]:
-                # a lorem name assembled by an escape / a variable (`lor\\em5`): the model wrote its marker for the random text
-                ctx.cover('markup:not-compared(lorem, seen in the model output)')
                 continue
             text_diff += 1
             if text_diff <= 12:
@@ -717,6 +734,9 @@ def run_markup(ctx, model_ok=True):
     # ---- markup.href: matchers, insert_href and the full output / callback events (harness/href_util.py)
     import href_util
     href_util.run_href(ctx, model)
+    # ---- lorem text: generator functions, header and the full output under a recorded stream of draws (harness/lorem_util.py)
+    import lorem_util
+    lorem_util.run_lorem(ctx, model)
 
 
 def replay_markup(ctx, obj):
@@ -728,6 +748,9 @@ def replay_markup(ctx, obj):
     if rp.get('component') in ('href', 'href-events'):
         import href_util
         return href_util.replay_href(rp)
+    if rp.get('component') == 'lorem':
+        import lorem_util
+        return lorem_util.replay_lorem(rp)
     if rp.get('component') != 'markup':
         return None
     abbr, cfg = rp['abbr'], rp.get('config') or {}
